@@ -195,6 +195,20 @@ func (p *Program) extraDecls(used map[string]bool, allOps map[string]bool) strin
 		fmt.Fprintf(&sb, "(assert (forall ((A (Array Int %s)) (j Int) (v %s) (o Int) (n Int)) (! (= (%s (store A j v) o n) (ite (and (<= o j) (< j (+ o n))) (+ (%s A o n) (- %s %s)) (%s A o n))) :pattern ((%s (store A j v) o n)))))\n",
 			el, el, op, op, val("v"), val("(select A j)"), op, op)
 	}
+	// built-in map sums: msum(D, V) = sum of V[k] over the keys k with D[k]; empty domain and one-key update laws
+	var msums []string
+	for op := range allOps {
+		if strings.HasPrefix(op, "msum.") {
+			msums = append(msums, op)
+		}
+	}
+	sort.Strings(msums)
+	for _, op := range msums {
+		ks := op[5:]
+		fmt.Fprintf(&sb, "(declare-fun %s ((Array %s Bool) (Array %s Int)) Int)\n", op, ks, ks)
+		fmt.Fprintf(&sb, "(assert (forall ((V (Array %s Int))) (! (= (%s ((as const (Array %s Bool)) false) V) 0) :pattern ((%s ((as const (Array %s Bool)) false) V)))))\n", ks, op, ks, op, ks)
+		fmt.Fprintf(&sb, "(assert (forall ((D (Array %s Bool)) (V (Array %s Int)) (k %s) (v Int)) (! (= (%s (store D k true) (store V k v)) (+ (%s D V) (- v (ite (select D k) (select V k) 0)))) :pattern ((%s (store D k true) (store V k v))))))\n", ks, ks, ks, op, op, op)
+	}
 	// pure function symbols in declaration order
 	for _, name := range TB.funOrd {
 		if !allOps[name] {
@@ -671,8 +685,79 @@ func (p *Program) buildQueryOpt(o *Obligation, unfoldDepth int, filter bool) str
 	if allOps["$xreal"] {
 		prelude += xrealPrelude
 	}
+	if abstractProducts {
+		cache := map[*Term]*Term{}
+		n := 0
+		for i, a := range asserts {
+			asserts[i] = abstractMul(a, cache, &n)
+		}
+		if n == 0 {
+			return ""
+		}
+		prelude += umulPrelude
+	}
 	txt := Script(asserts, prelude, func(used map[string]bool) string { return p.extraDecls(used, allOps) })
 	return txt + "(check-sat)\n"
+}
+
+// ---- uninterpreted-product abstraction ----
+//
+// Every product of two non-literal factors is replaced by an application of an
+// uninterpreted function (umul.Real / umul.Int). The abstraction only forgets
+// facts about multiplication (congruence is all that is left), so an `unsat`
+// answer for the abstract query is sound for the original one; any other answer
+// is ignored. It keeps the solvers' nonlinear arithmetic out of obligations that
+// merely carry a product such as cutoff*total from the code to the spec.
+
+// abstractProducts is consulted by buildQueryOpt (queries are built sequentially)
+var abstractProducts bool
+
+const umulPrelude = "(declare-fun umul.Real (Real Real) Real)\n(declare-fun umul.Int (Int Int) Int)\n"
+
+func abstractMul(t *Term, cache map[*Term]*Term, n *int) *Term {
+	if len(t.Args) == 0 {
+		return t
+	}
+	if r, ok := cache[t]; ok {
+		return r
+	}
+	changed := false
+	args := make([]*Term, len(t.Args))
+	for i, a := range t.Args {
+		args[i] = abstractMul(a, cache, n)
+		if args[i] != a {
+			changed = true
+		}
+	}
+	var pats [][]*Term
+	for _, pp := range t.Pats {
+		var q []*Term
+		for _, x := range pp {
+			y := abstractMul(x, cache, n)
+			if y != x {
+				changed = true
+			}
+			q = append(q, y)
+		}
+		pats = append(pats, q)
+	}
+	isLit := func(x *Term) bool { return x.Op == "int" || x.Op == "real" }
+	var r *Term
+	switch {
+	case t.Op == "*" && len(args) == 2 && !isLit(args[0]) && !isLit(args[1]) && (t.Sort == SReal || t.Sort == SInt):
+		*n++
+		op := "umul.Real"
+		if t.Sort == SInt {
+			op = "umul.Int"
+		}
+		r = mk(op, t.Sort, args[0], args[1])
+	case !changed:
+		r = t
+	default:
+		r = rebuild(t, args, pats)
+	}
+	cache[t] = r
+	return r
 }
 
 var axiomCache []*Term
@@ -717,6 +802,14 @@ var solvers = map[string]solverSpec{
 	// tactic selection): much faster on VCs with many pattern-guarded heap axioms
 	"z3e": {"z3-5.1.0-ematch", func(f string, t int) []string {
 		return []string{"z3-new", "-smt2", fmt.Sprintf("-T:%d", t), "smt.mbqi=false", "smt.auto_config=false", f}
+	}},
+	// e-matching with other random seeds: quantifier-heavy VCs that one instantiation order misses are
+	// usually found at once by another (portfolio against unstable proofs)
+	"z3e1": {"z3-5.1.0-ematch", func(f string, t int) []string {
+		return []string{"z3-new", "-smt2", fmt.Sprintf("-T:%d", t), "smt.mbqi=false", "smt.auto_config=false", "smt.random_seed=2", f}
+	}},
+	"z3e2": {"z3-5.1.0-ematch", func(f string, t int) []string {
+		return []string{"z3-new", "-smt2", fmt.Sprintf("-T:%d", t), "smt.mbqi=false", "smt.auto_config=false", "smt.random_seed=4", f}
 	}},
 	"cvc5": {"cvc5-1.0.3", func(f string, t int) []string {
 		return []string{"cvc5", "--lang=smt2", fmt.Sprintf("--tlimit=%d", t*1000), f}
@@ -829,6 +922,12 @@ func dischargeAll(p *Program, obls []*Obligation, cfg *SolveConfig) {
 			if qf != q {
 				os.WriteFile(file+".rel", []byte("; "+o.Name+" (relevant hypotheses only)\n"+qf), 0o644)
 			}
+			abstractProducts = true
+			qu := p.buildQueryOpt(o, 2, false)
+			abstractProducts = false
+			if qu != "" {
+				os.WriteFile(file+".umul", []byte("; "+o.Name+" (products of two non-literal factors uninterpreted)\n"+qu), 0o644)
+			}
 		}
 		files[o] = file
 		wg.Add(1)
@@ -933,6 +1032,34 @@ func solveFile(o *Obligation, file string, cfg *SolveConfig) {
 				return
 			}
 		}
+		if _, err := os.Stat(file + ".umul"); err == nil {
+			// uninterpreted products (an unsat answer is sound; anything else is ignored)
+			keys := []string{"z3", "z3new", "z3e"}
+			ch := make(chan solveResult, len(keys))
+			cctx, cancel := context.WithCancel(ctx)
+			for _, k := range keys {
+				go func(k string) { ch <- runSolver(cctx, k, file+".umul", cfg.t0) }(k)
+			}
+			var win *solveResult
+			for range keys {
+				r := <-ch
+				if r.verdict == "unsat" && win == nil {
+					rr := r
+					win = &rr
+					cancel()
+				}
+			}
+			cancel()
+			if win != nil && !cfg.allAgree {
+				record(*win)
+				o.Verdict, o.Solver, o.Secs = "unsat", win.solver, win.secs
+				o.Detail = fmt.Sprintf("%s=unsat(%.2fs) with uninterpreted products %s.umul", win.solver, win.secs, file)
+				tally.Lock()
+				tally.bySolver[o.Solver]++
+				tally.Unlock()
+				return
+			}
+		}
 		if _, err := os.Stat(file + ".rel"); err == nil {
 			// first attempt: reduced hypothesis set (an unsat answer is sound; anything else is ignored)
 			ch := make(chan solveResult, 2)
@@ -964,11 +1091,11 @@ func solveFile(o *Obligation, file string, cfg *SolveConfig) {
 	if o.ExpectSat {
 		// vacuity guard: only a definite unsat is a failure; do not spend the long timeout on it
 		race([]string{"z3", "z3new"}, 3)
-	} else if !race([]string{"z3", "z3new", "z3e", "cvc5"}, cfg.t1) || cfg.allAgree {
+	} else if !race([]string{"z3", "z3new", "z3e", "cvc5", "z3e1", "z3e2"}, cfg.t1) || cfg.allAgree {
 		if cfg.allAgree {
 			race([]string{"cvc5"}, cfg.t2)
 		} else {
-			race([]string{"cvc5", "z3", "z3new", "z3e"}, cfg.t2)
+			race([]string{"cvc5", "z3", "z3new", "z3e", "z3e1", "z3e2"}, cfg.t2)
 		}
 	}
 	if !o.ExpectSat && !cfg.allAgree {
